@@ -837,6 +837,8 @@ type vf6H struct {
 	missed      atomic.Bool
 	lastAttempt bool
 	confirmed   int
+	seq         bool // nothing else in this process runs RedisInput.run meanwhile: process-global state can be judged
+	noCrc       bool // this harness runs concurrently with another one: it leaves channel.verifyCrc alone
 }
 
 // begin starts an attempt of a case; again decides after it whether the case is repeated.
@@ -944,6 +946,50 @@ func vf6Last(xs []string, def string) string {
 	return xs[len(xs)-1]
 }
 
+// drawCrc (dimension audit, session 5): channel.verifyCrc is DRAWN. The flag is read by StoreChannel.NewReader when a
+// reader is created (cases run one after the other). It is on for the disk cases with an odd history seed - stable
+// across the repeats of a case - provided every snapshot the connection can meet is legal for a verifying reader:
+// a real RDB file (cmd worlds: CRC64 trailer) or at most 8 bytes (nothing to verify); a PRF snapshot of more than 8
+// bytes has no valid trailer and a verifying reader rightly refuses it (counted, not drawn).
+func (h *vf6H) drawCrc(c *vf6Case) {
+	cfg := config.GetSyncerConfig()
+	if cfg == nil || h.noCrc {
+		return // lanes run beside the main sequence and must not touch the process-wide flag (their cases are legal under both values)
+	}
+	h.s.Count("cfg_channel_" + map[string]string{"d": "disk", "m": "memory"}[c.backend])
+	if c.backend == "d" {
+		h.s.Count("cfg_storer_logSize_" + map[bool]string{true: "small_rotating", false: "default"}[c.logSize > 0 && c.logSize < 1<<16])
+		h.s.Count("cfg_process_restart_" + vf6B(c.fresh))
+	}
+	want := c.backend == "d" && c.s1%2 == 1
+	legal := c.cmd || (c.src.snapLen <= 8 && (!c.hasRdb || c.rdbSize <= 8))
+	cfg.Channel.VerifyCrc = want && legal
+	h.s.Count(fmt.Sprintf("cfg_verifyCrc_%v_%s", cfg.Channel.VerifyCrc, c.backend))
+	if want && !legal {
+		h.s.Count("cfg_verifyCrc_not_drawn_prf_snapshot_over_8_bytes")
+	}
+}
+
+// limiterCheck (dimension audit, session 5: process-global state). Every run() takes one slot of the process-wide
+// snapshot limiter (config Input.RdbLimiter(), a buffered channel shared by all inputs of the process) in fetchInput and
+// gives it back on one of seven paths; a slot that is not given back is lost for the life of the process (rdbParallel
+// attempts later every input blocks in fetchInput), a slot given back twice blocks the releasing goroutine for ever.
+// Judged only where no other run() is in flight in the process (seq).
+func (h *vf6H) limiterCheck(before int, what string) {
+	if !h.seq {
+		return
+	}
+	lim := config.GetSyncerConfig().Input.RdbLimiter()
+	for i := 0; i < 200 && len(lim) != before; i++ {
+		time.Sleep(time.Millisecond) // the source goroutine gives the slot back as it ends
+	}
+	h.s.Count("global_rdb_limiter_checked")
+	if n := len(lim); n != before {
+		h.sink.Violate("rdb-limiter-leak", fmt.Sprintf("the process-wide snapshot limiter held %d slots before run() and %d after it (%s)", before, n, what),
+			map[string]interface{}{"case": what})
+	}
+}
+
 func (h *vf6H) round(c *vf6Case, inner Channel, replay map[string]interface{}, real *vf6RealOut, truth *vf6Truth) *vf6Round {
 	s := h.sink
 	tag := "#T"
@@ -951,6 +997,7 @@ func (h *vf6H) round(c *vf6Case, inner Channel, replay map[string]interface{}, r
 	if c.cmd {
 		c.src.snapLen = int64(len(w.snapBytes(c.src.id1, c.src.master, 0)))
 	}
+	h.drawCrc(c)
 	src := c.src // copy of the parameters
 	src.w = w
 	srcp := &src
@@ -990,6 +1037,11 @@ func (h *vf6H) round(c *vf6Case, inner Channel, replay map[string]interface{}, r
 		proxy.failDel = true
 	case "chan_set":
 		proxy.failSet = true
+	case "info":
+		// dimension audit: a TRANSIENT failure before the bookkeeping - INFO replication is answered with an error, the
+		// run ends, and the next connection (judged as every connection) finds cache and position as they were
+		srcp.failInfo = true
+		proxy.faulted.Store(true)
 	}
 	ri := NewRedisInput(h.inCfg)
 	ri.SetOutput(out)
@@ -1005,7 +1057,9 @@ func (h *vf6H) round(c *vf6Case, inner Channel, replay map[string]interface{}, r
 		logMark = real.tg.LogLen()
 	}
 	t0 := time.Now()
+	lim0 := len(config.GetSyncerConfig().Input.RdbLimiter())
 	runErr := ri.run()
+	h.limiterCheck(lim0, op)
 	if ms := time.Since(t0).Milliseconds(); ms > h.slowMs {
 		h.slowMs = ms
 	}
@@ -2063,6 +2117,16 @@ func vf6GenCase(r *vfutil.Rand) *vf6Case {
 	if c.backend == "d" && r.Chance(1, 3) && !c.nonContig {
 		c.fresh = true // (a reopened store truncates a gap: C08)
 	}
+	if c.backend == "d" && c.s1%2 == 1 && r.Chance(2, 3) {
+		// a verifying reader (drawCrc): snapshots of at most 8 bytes, so that channel.verifyCrc = true is drawn
+		// with cached and with fresh snapshots, not only without any
+		if c.src.snapLen > 8 {
+			c.src.snapLen = 1 + c.src.snapLen%8
+		}
+		if c.hasRdb && c.rdbSize > 8 {
+			c.rdbSize = 1 + c.rdbSize%8
+		}
+	}
 	return c
 }
 
@@ -2147,7 +2211,7 @@ func TestVerifC06(t *testing.T) {
 	config.GetSyncerConfig().Output.Replay.BatchTicker = 2 * time.Millisecond
 	config.GetSyncerConfig().Output.Replay.UpdateCheckpointTicker = 3 * time.Millisecond
 	config.GetSyncerConfig().Output.Replay.Stats.DisableLog = true
-	h := &vf6H{t: t, s: s, ln: ln, tmp: tmp, inCfg: *config.GetSyncerConfig().Input.Redis}
+	h := &vf6H{t: t, s: s, ln: ln, tmp: tmp, inCfg: *config.GetSyncerConfig().Input.Redis, seq: true}
 	h.patience.Store(10000)
 
 	runCase := func(c0 *vf6Case, srcTag string, rounds int) {
@@ -2550,7 +2614,7 @@ func TestVerifC06(t *testing.T) {
 		if i%16 == 3 {
 			// fault injection: one bookkeeping call of the first round fails; the next
 			// connection(s) are judged on whatever the failed run left behind
-			h.faultPlan = vfutil.Pick(r, []string{"reset1", "reset2", "reset1", "out_setrunid", "chan_del", "chan_set"})
+			h.faultPlan = vfutil.Pick(r, []string{"reset1", "reset2", "reset1", "out_setrunid", "chan_del", "chan_set", "info", "info"})
 			if r.Bool() {
 				// a source with a brand-new id whose backlog covers the end of the old cache:
 				// FULLRESYNC, the failure hits after the channel was relabelled
@@ -2575,6 +2639,9 @@ func TestVerifC06(t *testing.T) {
 			// writer and reader (syncMeta's own calls on the template): the state a run
 			// aborted later leaves in the channel (unstarted writer, started reader) is the
 			// cache's business, and outside CacheWF the cache after the round is not described
+			if h.faultPlan == "info" && !c.nonContig {
+				c.keepSrc = true // a transient failure: the same source, the same position, connect again
+			}
 			nr := 1
 			if c.keepSrc && !c.nonContig {
 				nr = 2 + r.Intn(2)
